@@ -410,16 +410,21 @@ EXCLUSIONS = {
         _w_type_check_covers_runtime_parameter),
     ("type_check.py", "_type_check_builtin_reference", "$logical_value"): (
         "$logical_value is synthesised only by write_inference, the last pass", _w_logical_value_last_pass),
+    ("type_check.py", "_type_check_builtin_reference", "$next"): (
+        "where $next may still occur at this stage is decided (and reported) by R-FILTERCOVER", None),
+    ("expression_bounds.py", "_compute_constraints_of_builtin_value", "$next"): (
+        "type_check (earlier pass) never annotates $next, so it cannot reach the bounds pass; positions are "
+        "decided by R-FILTERCOVER", None),
     ("attribute_util.py", "check_attributes_in_ir.check_type_definition", "NONE"): (
         "inside the structure branch: module_ir gives every struct/bits definition BYTE or BIT", None),
 }
 
 
-def closed_chain_rule(repo, schema=None):
+def closed_chain_rule(repo, schema=None, modules=None):
     res = RuleResult("R-DISPATCH")
     schema = schema or Schema(repo)
     nchains = 0
-    for m in repo.compile_path_modules():
+    for m in (modules or repo.compile_path_modules()):
         base = m.rel.rsplit("/", 1)[-1]
         for f in m.funcs.values():
             for c in closed_chains(f):
@@ -474,11 +479,12 @@ def _fm_members_in(node):
 
 
 class FMFlow:
-    def __init__(self, repo, schema):
+    def __init__(self, repo, schema, modules=None):
         self.repo = repo
+        self.modules = modules or repo.compile_path_modules()
         self.ALL = frozenset(schema.enums["FunctionMapping"])
         self.aware = {}  # fq -> Func  (functions with FM dispatch positions)
-        for m in repo.compile_path_modules():
+        for m in self.modules:
             for f in m.funcs.values():
                 if self._dispatch_members(f):
                     self.aware[f.fq] = f
@@ -511,7 +517,7 @@ class FMFlow:
     def run(self):
         # roots: FM-aware functions with a caller that is not FM-aware (or no caller)
         callers = {}
-        for m in self.repo.compile_path_modules():
+        for m in self.modules:
             for n in ast.walk(m.tree):
                 if isinstance(n, ast.Call):
                     r = self.repo.resolve(m, n.func, m.enclosing_func(n))
@@ -635,10 +641,10 @@ class FMFlow:
         return rem
 
 
-def fm_flow_rule(repo, schema=None):
+def fm_flow_rule(repo, schema=None, modules=None):
     res = RuleResult("R-DISPATCH-FM")
     schema = schema or Schema(repo)
-    flow = FMFlow(repo, schema).run()
+    flow = FMFlow(repo, schema, modules).run()
     seen = set()
     for f, line, kind, need, have, text in flow.obligations:
         key0 = (f.fq, line, kind)
@@ -662,3 +668,125 @@ def fm_flow_rule(repo, schema=None):
     res.detail = {"fm_aware_functions": len(flow.aware), "obligations": len(seen),
                   "incoming": {fq.rsplit('.', 1)[-1]: len(v) for fq, v in flow.inc.items()}}
     return res
+
+
+# --- R-FILTERCOVER ------------------------------------------------------------------------
+def filtercover(repo, schema=None, sites=None):
+    """A builtin word that some later stage cannot handle must be rejected at every position
+    where an expression can occur, before that stage runs."""
+    from . import traversal as T
+    res = RuleResult("R-FILTERCOVER")
+    schema = schema or Schema(repo)
+    sites = sites if sites is not None else T.collect_sites(repo, schema)
+    words, synth = builtin_words(repo)
+    # stages and the words they handle
+    stages = []
+    for rel in ("compiler/front_end/type_check.py", "compiler/front_end/expression_bounds.py"):
+        m = repo.mod(rel)
+        for f in m.funcs.values():
+            for c in closed_chains(f):
+                cov = {x for x in c.covered if isinstance(x, str)}
+                if cov and all(x.startswith("$") for x in cov):
+                    stages.append((f, cov))
+    hg = repo.mod("compiler/back_end/cpp/header_generator.py")
+    rendered = set()
+    render_fn = None
+    for f in hg.top_funcs():
+        for n in walk_no_nested_funcs(f.node):
+            if isinstance(n, ast.Compare) and "builtin_reference" in ast.unparse(n.left) and isinstance(n.comparators[0], ast.Constant) \
+                    and isinstance(n.comparators[0].value, str) and n.comparators[0].value.startswith("$"):
+                rendered.add(n.comparators[0].value)
+                render_fn = f
+    if render_fn is None or len(stages) < 2:
+        raise AnalysisError("builtin-word consumers not found (type_check / expression_bounds / header_generator)")
+    stages.append((render_fn, rendered))
+    # the rejecting traversal
+    rejecting = None
+    for s in sites:
+        if s.action is None or not s.pattern or s.pattern[-1] != "Reference":
+            continue
+        for n in walk_no_nested_funcs(s.action.node):
+            if isinstance(n, ast.If) and isinstance(n.test, ast.Compare) and isinstance(n.test.ops[0], ast.In) \
+                    and "object_path" in ast.unparse(n.test.left):
+                ms = _members_of(n.test.comparators[0])
+                if ms and all(x.startswith("$") for x in ms) and "errors.append" in s.module.seg(n):
+                    rejecting = (s, set(ms))
+    if rejecting is None:
+        raise AnalysisError("no traversal rejects builtin words (dependency_checker)")
+    site, rejected = rejecting
+    holes = sorted(t for t in (site.skip or set()) if "Expression" in schema.descendants(t))
+    res.detail = {"words": sorted(words), "rejected": sorted(rejected), "skipped_with_expressions": holes,
+                  "stages": {f.qualname: sorted(c) for f, c in stages}}
+    render_fn = stages[-1][0]
+    # words whose inferred range is unbounded can never pass the 64-bit gate (R-GATE) as part of a
+    # run-time expression, so they cannot reach the back end
+    eb = repo.mod("compiler/front_end/expression_bounds.py")
+    gate_covered = set()
+    for f in eb.funcs.values():
+        for n in walk_no_nested_funcs(f.node):
+            if isinstance(n, ast.If):
+                tests, bodies, _ = _chain_branches(n)
+                for t, b in zip(tests, bodies):
+                    p = parse_test(t)
+                    if p and p.kind == "str" and all(isinstance(x, str) and x.startswith("$") for x in p.members):
+                        for st in b:
+                            if isinstance(st, ast.Assign) and ast.unparse(st.targets[0]).endswith("maximum_value") \
+                                    and isinstance(st.value, ast.Constant) and st.value.value == "infinity":
+                                gate_covered |= set(p.members)
+    res.detail['gate_covered'] = sorted(gate_covered)
+    for w in sorted(words):
+        unhandled = [f for f, cov in stages if w not in cov and not (f is render_fn and w in gate_covered)]
+        if not unhandled:
+            continue
+        res.instances += 1
+        if w not in rejected:
+            res.add(f"filtercover|{w}|unrejected", f"builtin word {w} is not handled by {unhandled[0].qualname} and no "
+                    "traversal rejects it", site.module.rel, site.call.lineno)
+            continue
+        for t in holes:
+            res.instances += 1
+            res.add(f"filtercover|{w}|{t}",
+                    f"builtin word {w} is rejected by {site.action.name} everywhere except inside {t} subtrees "
+                    f"(skip_descendants_of), but {unhandled[0].qualname} cannot handle it: using {w} inside "
+                    f"{'an attribute value' if t == 'Attribute' else 'a type argument'} ends in an assertion failure",
+                    site.module.rel, site.call.lineno, site.func.qualname if site.func else "")
+    res.samples = [res.detail["stages"]]
+    res.analysed = [site.module.rel, hg.rel]
+    return res
+
+
+# --- positive control ---------------------------------------------------------------------
+_CTL = '''
+from compiler.util import ir_data
+
+def render(expression):
+    if expression.type.which_type == "integer":
+        return 1
+    elif expression.type.which_type == "boolean":
+        return 2
+    else:
+        assert False, "unexpected"
+
+def fold(function):
+    if function.function == ir_data.FunctionMapping.UNKNOWN:
+        return None
+    table = {
+        ir_data.FunctionMapping.ADDITION: 1,
+        ir_data.FunctionMapping.SUBTRACTION: 2,
+        ir_data.FunctionMapping.MULTIPLICATION: 3,
+        ir_data.FunctionMapping.EQUALITY: 4,
+        ir_data.FunctionMapping.INEQUALITY: 5,
+    }
+    return table[function.function]
+'''
+
+
+def control(repo):
+    r2 = Repo(repo.root, overlay={"compiler/front_end/zz_verif_control.py": _CTL})
+    mods = [r2.mod("compiler/front_end/zz_verif_control.py")]
+    sch = Schema(r2)
+    a = closed_chain_rule(r2, sch, mods)
+    b = fm_flow_rule(r2, sch, mods)
+    return ({f.construct.rsplit("|", 1)[-1] for f in a.findings} == {"opaque", "enumeration"}
+            and any(f.construct.endswith("|MAXIMUM") for f in b.findings)
+            and not any(f.construct.endswith("|ADDITION") for f in b.findings))
